@@ -135,8 +135,10 @@ type Cluster struct {
 	// "system_peers" | "startup" | "register"; each entry is consumed once
 	internal map[string][]Outcome
 	// HoldStartup parks the replies to STARTUP (new backend connections hang in their handshake)
-	HoldStartup  bool
-	heldStartups []*held
+	HoldStartup      bool
+	heldStartups     []*held
+	forceID          map[string]string // PREPARE token -> key of a forced prepared id
+	WarnOnUnprepared bool              // UNPREPARED answers carry a warning (v4+)
 }
 
 type Host struct {
@@ -408,6 +410,17 @@ func (c *Cluster) QueueInternal(kind string, o Outcome) {
 	c.mu.Unlock()
 }
 
+// ForceID makes the PREPARE whose text carries token answer with the id derived from key (instead of from the
+// text): two different statements can thereby be given the same prepared id.
+func (c *Cluster) ForceID(token, key string) {
+	c.mu.Lock()
+	if c.forceID == nil {
+		c.forceID = map[string]string{}
+	}
+	c.forceID[token] = key
+	c.mu.Unlock()
+}
+
 // ClearInternal forgets hostile replies that were queued but not consumed.
 func (c *Cluster) ClearInternal() {
 	c.mu.Lock()
@@ -669,6 +682,7 @@ func (c *Conn) IsRegistered() bool {
 	defer c.h.c.mu.Unlock()
 	return len(c.Registered) > 0
 }
+
 // IsStarted reports whether the connection completed STARTUP.
 func (c *Conn) IsStarted() bool {
 	c.h.c.mu.Lock()
@@ -717,6 +731,25 @@ func compressible(op primitive.OpCode) bool {
 }
 
 // replyMsg encodes and sends a response; returns the frame sent.
+// extrasFor: what a real node puts in front of a response body - a tracing id when the request asked for tracing,
+// warnings when the cluster is told to warn (v4+).
+func (c *Conn) extrasFor(req *wire.Frame, v primitive.ProtocolVersion) *frame.Body {
+	var b *frame.Body
+	if req.Flags&wire.FlagTracing != 0 {
+		b = &frame.Body{TracingId: &primitive.UUID{0x11, 0x22, 0x33, 0x44, 0x55, 0x66, 0x47, 0x88, 0x99, 0xaa, 0xbb, 0xcc, 0xdd, 0xee, 0xff, 0x01}}
+	}
+	c.h.c.mu.Lock()
+	warn := c.h.c.WarnOnUnprepared
+	c.h.c.mu.Unlock()
+	if warn && v >= primitive.ProtocolVersion4 {
+		if b == nil {
+			b = &frame.Body{}
+		}
+		b.Warnings = []string{"fakecass: this node is about to be decommissioned"}
+	}
+	return b
+}
+
 func (c *Conn) replyMsg(v primitive.ProtocolVersion, stream int16, msg message.Message, extra *frame.Body, pre ...func(*wire.Frame)) *wire.Frame {
 	b := &frame.Body{Message: msg}
 	if extra != nil {
@@ -1069,6 +1102,13 @@ func (c *Conn) handle(f *wire.Frame) bool {
 		}
 		cl.mu.Unlock()
 		sum := md5.Sum([]byte(ks + "\x00" + m.Query))
+		// A backend is free to hand out whatever ids it likes. ForceID makes PREPAREs carrying given tokens share
+		// one id, so that a history can redefine what an id means.
+		cl.mu.Lock()
+		if key, ok := cl.forceID[token]; ok {
+			sum = md5.Sum([]byte("forced-id\x00" + key))
+		}
+		cl.mu.Unlock()
 		id := sum[:]
 		return c.scripted(f, plain, token, func() message.Message {
 			c.h.mu.Lock()
@@ -1083,7 +1123,7 @@ func (c *Conn) handle(f *wire.Frame) bool {
 	case *message.Execute:
 		if cl.UnpreparedAuto && !c.h.HasPrepared(hex.EncodeToString(m.QueryId)) {
 			c.record(f, plain, token, "unprepared(auto)")
-			c.replyMsg(v, f.Stream, &message.Unprepared{ErrorMessage: "Prepared query with ID " + hex.EncodeToString(m.QueryId) + " not found " + token, Id: m.QueryId}, nil)
+			c.replyMsg(v, f.Stream, &message.Unprepared{ErrorMessage: "Prepared query with ID " + hex.EncodeToString(m.QueryId) + " not found " + token, Id: m.QueryId}, c.extrasFor(f, v))
 			return true
 		}
 		return c.scriptedWithID(f, plain, token, nil, v, m.QueryId)
@@ -1092,7 +1132,7 @@ func (c *Conn) handle(f *wire.Frame) bool {
 			for _, ch := range m.Children {
 				if ch.Id != nil && !c.h.HasPrepared(hex.EncodeToString(ch.Id)) {
 					c.record(f, plain, token, "unprepared(auto)")
-					c.replyMsg(v, f.Stream, &message.Unprepared{ErrorMessage: "Prepared query with ID " + hex.EncodeToString(ch.Id) + " not found " + token, Id: ch.Id}, nil)
+					c.replyMsg(v, f.Stream, &message.Unprepared{ErrorMessage: "Prepared query with ID " + hex.EncodeToString(ch.Id) + " not found " + token, Id: ch.Id}, c.extrasFor(f, v))
 					return true
 				}
 			}
